@@ -449,11 +449,13 @@ class _:
 class _:
     def run(a, ins, news, kind, r, left, right, issorted=None):
         kw = {}
-        if left is not None: kw['left'] = left
-        if right is not None: kw['right'] = right
+        # 'edge': left=None / right=None passed explicitly = numpy.interp's own default, the value at the edge
+        if left is not None: kw['left'] = None if left == 'edge' else left
+        if right is not None: kw['right'] = None if right == 'edge' else right
         if issorted is not None: kw['issorted'] = issorted
         return a.interp_axis(labs_np(news, kind), axis=r, **kw)
     def coq(news, kind, r, left, right, issorted=None):
+        if 'edge' in (left, right): raise Unsupported('explicit None fills: numpy.interp on the fibres is the reference (oracle)')
         c = lambda v: 'CNaN' if v is None else cq_cell(float(v))
         return '(OInterp %s %s %s %s %s)' % (cq_kind(kind), cq_labs(news), cq_axref(r), c(left), c(right))
 
